@@ -164,8 +164,8 @@ def holds_gt(rels, a_pred, b_lin):
     return None
 
 
-def _edge_relation(fn, rec, a, b):
-    """Relation implied by taking the CFG edge a -> b (None when a does not branch or the edge carries no usable constraint)."""
+def _edge_raw(fn, rec, a, b):
+    """Constraint of taking the CFG edge a -> b, unconverted: ('bool', discr expr, truth, a) | ('sw', discr expr, constraint, a) | None."""
     t = fn.term(a)
     if t['k'] != 'switch':
         return None
@@ -184,9 +184,44 @@ def _edge_relation(fn, rec, a, b):
     if t.get('discr_ty') == 'bool':
         if c[0] in ('eq', 'notin'):
             truth = (c == ('notin', [0])) or (c[0] == 'eq' and c[1] != 0)
-            return as_relation(de, truth) + (a,)
+            return ('bool', de, truth, a)
         return None
-    return ('switch', de, c, a)
+    return ('sw', de, c, a)
+
+
+def _edge_relation(fn, rec, a, b):
+    """Relation implied by taking the CFG edge a -> b (None when a does not branch or the edge carries no usable constraint)."""
+    r = _edge_raw(fn, rec, a, b)
+    if r is None:
+        return None
+    if r[0] == 'bool':
+        return as_relation(r[1], r[2]) + (r[3],)
+    return ('switch', r[1], r[2], r[3])
+
+
+def _path_bool_env(fn, rec, blocks):
+    """Boolean locals with several definitions that are assigned in the blocks of one path: {('v', l): value on this path}
+    (`let improved = match best { Some(h) => a, None => b }; if improved { .. }`: on the Some path `improved` is a)."""
+    env = {}
+    defs = fn.defs()
+    for b in blocks:
+        for si, st in enumerate(fn.blocks[b]['stmts']):
+            if st['k'] == 'assign' and not st['p']['pr']:
+                l = st['p']['l']
+                if fn.local_ty(l) == 'bool' and len(defs.get(l, [])) > 1 and l not in fn.borrowed_mut:
+                    try:
+                        env[('v', l)] = (rec.at(b) if hasattr(rec, 'at') else rec).rvalue(st['rv'])
+                    except Exception:
+                        env.pop(('v', l), None)
+    return env
+
+
+def _subst_env(e, env):
+    if isinstance(e, tuple):
+        if e in env:
+            return env[e]
+        return tuple(_subst_env(x, env) if isinstance(x, tuple) else x for x in e)
+    return e
 
 
 def alternatives(fn, rec, block, limit=12, depth=3):
@@ -194,7 +229,8 @@ def alternatives(fn, rec, block, limit=12, depth=3):
     Every alternative contains the dominating relations; where `block` or one of its dominators is a join (short-circuit `a || b`,
     a `match` with several arms leading to the same code), the alternatives enumerate the acyclic forward paths from the join's
     immediate dominator, with the constraints of the edges taken (at most `depth` joins up the dominator chain, at most `limit`
-    alternatives; beyond that the single alternative `relations(block)` is returned, which is always sound)."""
+    alternatives; beyond that the single alternative `relations(block)` is returned, which is always sound).  A boolean flag that is
+    assigned on the arms of such a join and tested afterwards is replaced, per alternative, by the value it got on that arm."""
     base = relations(fn, rec, block)
     dom = fn.dominators()
     if block not in dom:
@@ -210,21 +246,21 @@ def alternatives(fn, rec, block, limit=12, depth=3):
     def local_paths(d, b):
         paths = []
 
-        def walk(x, acc, seen):
+        def walk(x, acc, seen, blocks):
             if len(paths) > limit:
                 return
             if x == b:
-                paths.append(list(acc))
+                paths.append((list(acc), list(blocks)))
                 return
             for s_ in fn.succs(x):
                 if s_ in seen or s_ not in dom or d not in dom[s_] or (s_ in dom[x] and s_ != b):
                     continue
-                r = _edge_relation(fn, rec, x, s_)
-                walk(s_, acc + ([r] if r is not None else []), seen | {s_})
-        walk(d, [], {d})
+                r = _edge_raw(fn, rec, x, s_)
+                walk(s_, acc + ([r] if r is not None else []), seen | {s_}, blocks + [s_])
+        walk(d, [], {d}, [])
         return paths
 
-    extra = [[]]
+    extra = [([], {})]           # (raw edge constraints in execution order, flag values)
     b, joins = block, 0
     while True:
         d = idom_of(b)
@@ -237,16 +273,79 @@ def alternatives(fn, rec, block, limit=12, depth=3):
             joins += 1
             if joins > depth:
                 break
-            extra = [p + e for p in paths for e in extra]
+            new = []
+            for raws, blocks in paths:
+                env_p = _path_bool_env(fn, rec, blocks[:-1] if blocks and blocks[-1] == b else blocks)
+                for raws_e, env_e in extra:
+                    env = dict(env_p)
+                    env.update(env_e)
+                    new.append((raws + raws_e, env))
+            extra = new
             if len(extra) > limit:
                 return [base]
+        else:
+            extra = [(paths[0][0] + raws_e, env_e) for raws_e, env_e in extra]
         b = d
+    # a constraint read at block c about a local that is assigned again on a way from c to `block` (a loop-carried `best` tested before the
+    # loop, then replaced inside it) says nothing about the value the local has at `block`: such constraints are dropped
+    defs = fn.defs()
+
+    def _reach(a, avoid=None):
+        seen, st = set(), [a]
+        while st:
+            x = st.pop()
+            for y in fn.succs(x):
+                if y not in seen and y != avoid:
+                    seen.add(y)
+                    st.append(y)
+        return seen
+    _rc = {}
+
+    def stale(expr, c):
+        for x in _walk(expr):
+            if isinstance(x, tuple) and len(x) == 2 and x[0] == 'v' and len(defs.get(x[1], [])) > 1:
+                for d in defs[x[1]]:
+                    db_ = d[0]
+                    if c not in _rc:
+                        _rc[c] = _reach(c)
+                    if db_ in _rc[c] and (block in _reach(db_, avoid=c) or db_ == c):
+                        return True
+        return False
+
+    def _walk(e):
+        if isinstance(e, tuple):
+            yield e
+            for y in e:
+                if isinstance(y, tuple):
+                    yield from _walk(y)
+    extra = [([r for r in raws if not stale(r[1], r[3])], env) for raws, env in extra]
+    base = [r for r in base if not (isinstance(r[1], tuple) and stale(r[1], r[-1])) and not (len(r) > 3 and isinstance(r[2], tuple) and r[0] != 'switch' and stale(r[2], r[-1]))]
     key = lambda r: (r[0], repr(r[1:-1]))
     out = []
-    for p in extra:
-        have = {key(r) for r in base}
-        out.append(base + [r for r in p if key(r) not in have])
+    for raws, env in extra:
+        rels = []
+        for r in base:
+            if env and r[0] in ('true', 'false') and isinstance(r[1], tuple) and any(k == r[1] or _contains(r[1], k) for k in env):
+                rels.append(as_relation(_subst_env(r[1], env), r[0] == 'true') + (r[-1],))
+            else:
+                rels.append(r)
+        have = {key(r) for r in rels}
+        for r in raws:
+            de = _subst_env(r[1], env) if env else r[1]
+            q = (as_relation(de, r[2]) + (r[3],)) if r[0] == 'bool' else ('switch', de, r[2], r[3])
+            if key(q) not in have:
+                rels.append(q)
+                have.add(key(q))
+        out.append(rels)
     return out
+
+
+def _contains(e, x):
+    if e == x:
+        return True
+    if isinstance(e, tuple):
+        return any(_contains(y, x) for y in e if isinstance(y, tuple))
+    return False
 
 
 def expr_alternatives(e, truth=True, limit=16):
@@ -276,6 +375,29 @@ def expr_alternatives(e, truth=True, limit=16):
     return [[as_relation(e, truth)]]
 
 
+def feasible(alt):
+    """False when the alternative constrains one discriminant / integer expression to two different values (an infeasible combination
+    of a path through a `match` with the other arm's value of a flag computed by that same match)."""
+    from .match import norm as _n
+    must, cannot = {}, {}
+    for r in alt:
+        if r[0] == 'switch':
+            k = repr(_n(r[1]))
+            if r[2][0] == 'eq':
+                must.setdefault(k, set()).add(r[2][1])
+            elif r[2][0] == 'notin':
+                cannot.setdefault(k, set()).update(r[2][1])
+            elif r[2][0] == 'in':
+                pass
+        elif r[0] in ('eq', 'ne') and len(r) > 3 and isinstance(r[2], tuple) and _n(r[2])[0] == 'k' and isinstance(_n(r[2])[1], int) and not isinstance(_n(r[2])[1], bool):
+            k = repr(_n(r[1]))
+            (must if r[0] == 'eq' else cannot).setdefault(k, set()).add(_n(r[2])[1])
+    for k, vs in must.items():
+        if len(vs) > 1 or (vs & cannot.get(k, set())):
+            return False
+    return True
+
+
 def expand_alternatives(alts, limit=24):
     """Split the boolean-expression relations ('true' / 'false', e) inside each alternative into their own alternatives."""
     out = []
@@ -290,4 +412,5 @@ def expand_alternatives(alts, limit=24):
             if len(acc) > limit:
                 return alts
         out.extend(acc)
+    out = [a for a in out if feasible(a)] or out
     return out if len(out) <= limit else alts
